@@ -128,6 +128,12 @@ def domainAllows (hostname port allowedDomain : Str) : Bool :=
 /-- `util.IsEndpointAllowed(endpoint, allowedDomains)` where `hostname = endpoint.Hostname()`
     and `port = endpoint.Port()`. -/
 def isEndpointAllowed (hostname port : Str) (allowedDomains : List Str) : Bool :=
+  -- since the fix "never treat a redirect URL without a host as being on an allowed domain":
+  -- `if hostname == "" { return false }`
+  !hostname.isEmpty && allowedDomains.any (domainAllows hostname port)
+
+/-- the function before that fix (kept for the regression witness in `O2P.Props.C06`) -/
+def isEndpointAllowedOld (hostname port : Str) (allowedDomains : List Str) : Bool :=
   allowedDomains.any (domainAllows hostname port)
 
 /-! ## `validator.IsValidRedirect` -/
